@@ -319,7 +319,7 @@ func (s *Sim) rconfAddNode() {
 	elig := s.eligibleNodes()
 	node := elig[s.tape.Draw(len(elig))]
 	id := len(s.nodes) + 1
-	s.issue(c, bs("rconf", "add", itoa(id), nodeURL(id)), node, len(c.ops), false, false)
+	s.issue(c, bs(s.rconfSpelling(), "add", itoa(id), nodeURL(id)), node, len(c.ops), false, false)
 }
 
 func (s *Sim) startJoiner() {
@@ -354,7 +354,7 @@ func (s *Sim) rconfDeleteNode() {
 	}
 	victim := ids[s.tape.Draw(len(ids))]
 	// (issue notes the command: the victim is no longer expected to serve)
-	s.issue(c, bs("rconf", "delete", itoa(victim)), node, len(c.ops), false, false)
+	s.issue(c, bs(s.rconfSpelling(), "delete", itoa(victim)), node, len(c.ops), false, false)
 }
 
 // fireScript fires the next due scripted fault, if any.
@@ -481,4 +481,17 @@ func (s *Sim) fireScript() bool {
 	}
 	sf.fired = true
 	return false
+}
+
+// rconfSpelling: mostly the lower-case spelling the connection handler executes
+// locally, now and then another letter case, which goes through the log and is
+// executed by every replica.
+func (s *Sim) rconfSpelling() string {
+	switch s.tape.Draw(5) {
+	case 3:
+		return "RCONF"
+	case 4:
+		return "Rconf"
+	}
+	return "rconf"
 }
